@@ -33,11 +33,13 @@ func rangeKV(k, v ssa.Value) (*ssa.Range, bool) {
 }
 
 func C18(c *Ctx) {
-	c.R.Explanation = "Decides structural necessary conditions of 'permanent bindings survive every action and guard' on the SSA form of FuncAction.Exec: (R1) before the wrapped function is called, every (name, value) pair of the given bindings whose name is permanent is saved into a map created by this activation (not shared between executions); after the call, on every path that returns bindings, exactly the saved pairs are written back into the returned bindings — names and values both come from the saved map, never from the (possibly mutated) given bindings; the only ways around the write-back are the feature switch, a nil execution and nil bindings; (R2) FuncAction is the only Action implementation in the repository and the only caller of interpreter Exec functions, so every action and guard goes through the wrapper; (R3) the write-back is nil-safe and leaves nil bindings nil (a rejecting guard still rejects); (R4) nothing reachable from the given bindings is reachable from a value handed to the ECMAScript runtime, so a script cannot alter a permanent binding's value in place (the snapshot holds the same value object). Values for all scripts are not decided."
+	c.R.Explanation = "Decides structural necessary conditions of 'permanent bindings survive every action and guard' on the SSA form of FuncAction.Exec: (R1) before the wrapped function is called, every (name, value) pair of the given bindings whose name is permanent is saved into a map created by this activation (not shared between executions); after the call, on every path that returns bindings, exactly the saved pairs are written back into the returned bindings — names and values both come from the saved map, never from the (possibly mutated) given bindings; the only ways around the write-back are the feature switch, a nil execution and nil bindings; (R2) FuncAction is the only Action implementation in the repository and the only caller of interpreter Exec functions, so every action and guard goes through the wrapper; (R3) the write-back is nil-safe and leaves nil bindings nil (a rejecting guard still rejects); (R4) nothing reachable from the given bindings is reachable from a value handed to the ECMAScript runtime, so a script cannot alter a permanent binding's value in place (the snapshot holds the same value object). (R5) on every path of core Step on which the action's error is non-nil, the bindings that are extended with the error texts, stored into the error state and handed to branch evaluation derive only from a copy of the given state's bindings — never from the failed execution's bindings (which the wrapper does not restore into) or from fresh empty bindings. Values for all scripts are not decided."
 	c.R.Rule("C18-R1", "E3+E5", "snapshot before, restore after, from a private map", 6)
 	c.R.Rule("C18-R2", "E7", "the wrapper is the sole executor", 3)
 	c.R.Rule("C18-R3", "E2", "restore is nil-safe and does not force bindings", 2)
 	c.R.Rule("C18-R4", "E1", "scripts cannot change a (permanent) binding's value in place: they see copies", 1)
+	c.R.Rule("C18-R5", "E3+E5", "a failed action leaves the machine's bindings in place: Step goes on from a copy of the given bindings", 2)
+	c18Failure(c)
 	exec := c.fn("core", "FuncAction", "Exec")
 	isPerm := c.fn("core", "", "isPermanent")
 	if exec == nil || isPerm == nil {
@@ -452,4 +454,150 @@ func C18(c *Ctx) {
 		}
 	}
 	c.R.Check(!forced, "C18-R3", "Exec: nil bindings stay nil", c.pos(K), "the wrapper never assigns Execution.Bs of the result", "the wrapper replaces the returned bindings (a guard that rejects by returning nil would accept)")
+}
+
+// c18Failure: C18-R5.
+func c18Failure(c *Ctx) {
+	step := c.fn("core", "Spec", "Step")
+	if step == nil {
+		return
+	}
+	c.R.Fn(fname(step))
+	scope := []*ssa.Function{step}
+	var actErr ssa.Value
+	ssau.Instrs(step, func(in ssa.Instruction) {
+		if ex, ok := in.(*ssa.Extract); ok && ex.Index == 1 {
+			if cl, ok := ex.Tuple.(*ssa.Call); ok && cl.Common().IsInvoke() && cl.Common().Method.Name() == "Exec" {
+				actErr = ex
+			}
+		}
+	})
+	if actErr == nil {
+		c.R.Break("C18-R5: Step does not execute the node's action")
+		return
+	}
+	failedAt := func(b *ssa.BasicBlock) bool {
+		for _, f := range flow.FactsAt(b) {
+			bo, ok := f.Cond.(*ssa.BinOp)
+			if !ok {
+				continue
+			}
+			var v ssa.Value
+			switch {
+			case ssau.IsNilConst(bo.Y):
+				v = bo.X
+			case ssau.IsNilConst(bo.X):
+				v = bo.Y
+			default:
+				continue
+			}
+			if !((bo.Op == token.NEQ && f.True) || (bo.Op == token.EQL && !f.True)) {
+				continue
+			}
+			ds := deepDefs(v, scope)
+			only := len(ds) > 0
+			for _, d := range ds {
+				if d != actErr {
+					only = false
+				}
+			}
+			if only {
+				return true
+			}
+		}
+		return false
+	}
+	var stParam *ssa.Parameter
+	for _, p := range step.Params {
+		if ssau.TypeIs(p.Type(), prog.Abs("core"), "State") {
+			stParam = p
+		}
+	}
+	// judge: the leaves of a bindings value used on the failure path
+	judge := func(v ssa.Value, at *ssa.BasicBlock) (bool, string) {
+		okAny := false
+		for _, da := range phiEdgesWithBlocks(v, at) {
+			if !failedAt(da.b) && da.b != at {
+				continue // an edge from the success path
+			}
+			for _, d := range deepDefs(da.v, scope) {
+				if _, is := isFieldLoad(d, "core", "Execution", "Bs"); is {
+					return false, "they can be the failed execution's bindings (" + c.posv(d) + "), which carry none of the machine's permanent bindings"
+				}
+				cl, isCall := d.(*ssa.Call)
+				if !isCall {
+					if _, is := isFieldLoad(d, "core", "State", "Bs"); is {
+						okAny = true // the given bindings themselves (C06 decides that they are not written)
+						continue
+					}
+					return false, "they can be " + d.String() + " (" + c.posv(d) + ")"
+				}
+				sc := cl.Common().StaticCallee()
+				switch {
+				case sc != nil && sc.Name() == "Copy" && len(cl.Common().Args) == 1:
+					// a copy of what? follow the receiver
+					rok := true
+					for _, r := range deepDefs(cl.Common().Args[0], scope) {
+						if base, is := isFieldLoad(r, "core", "State", "Bs"); !is || (stParam != nil && base != ssa.Value(stParam)) {
+							if c2, isC2 := r.(*ssa.Call); isC2 && c2.Common().StaticCallee() != nil && c2.Common().StaticCallee().Name() == "Copy" {
+								continue
+							}
+							rok = false
+						}
+					}
+					if !rok {
+						return false, "they can be a copy of something other than the given state's bindings (" + c.pos(cl) + ")"
+					}
+					okAny = true
+				case sc != nil && (sc.Name() == "Extend" || sc.Name() == "Extendm"):
+					okAny = true // extension of a value judged at its own site
+				default:
+					return false, "they can be the result of " + ssau.CalleeName(cl) + " (" + c.pos(cl) + "), not the machine's bindings"
+				}
+			}
+		}
+		return okAny, "no definition found on the failure path"
+	}
+	n := 0
+	ssau.Instrs(step, func(in ssa.Instruction) {
+		switch x := in.(type) {
+		case *ssa.Store:
+			if !ssau.IsField(x.Addr, prog.Abs("core"), "State", "Bs") || !failedAt(x.Block()) {
+				return
+			}
+			_, _, base, _ := ssau.FieldOf(x.Addr)
+			if !localFresh(base) {
+				return
+			}
+			n++
+			ok, why := judge(x.Val, x.Block())
+			c.R.Check(ok, "C18-R5", fmt.Sprintf("Step: bindings of the error state #%d", n), c.pos(x), "a copy of the given state's bindings (extended with the error texts)", "after a failed action the next state's bindings are not the machine's: "+why)
+		case *ssa.Call:
+			sc := x.Common().StaticCallee()
+			if sc == nil || sc.Name() != "consider" {
+				return
+			}
+			// the bindings operand: the argument of Bindings type
+			for _, a := range x.Common().Args {
+				if !isBindingsT(a.Type()) {
+					continue
+				}
+				hasFailEdge := false
+				for _, da := range phiEdgesWithBlocks(a, x.Block()) {
+					if failedAt(da.b) {
+						hasFailEdge = true
+					}
+				}
+				if !hasFailEdge {
+					continue
+				}
+				n++
+				ok, why := judge(a, nil)
+				c.R.Check(ok, "C18-R5", fmt.Sprintf("Step: bindings handed to branch evaluation after a failed action #%d", n), c.pos(x), "a copy of the given state's bindings (extended with the error texts)", "after a failed action the branches are evaluated on bindings that are not the machine's: "+why)
+			}
+		}
+	})
+	if n == 0 {
+		c.R.Break("C18-R5: no use of bindings on the action-failure path of Step found")
+	}
 }
